@@ -966,6 +966,22 @@ int main (void)
       printf ("ok ret %d\n", nice_agent_set_selected_pair (g->agent, atoi (w[2]), atoi (w[3]), w[4], w[5]));
       total_dispatches += iterate_ready ();
     }
+    else if (!strcmp (w[0], "selremote") && n >= 6 && (g = find_ag (w[1])) && g->alive) {
+      /* nice_agent_set_selected_remote_candidate with a host candidate <ip> <port> [tcp-act|tcp-pass] */
+      NiceCandidate *c = nice_candidate_new (NICE_CANDIDATE_TYPE_HOST); gboolean r = FALSE;
+      c->transport = n >= 7 && !strcmp (w[6], "tcp-act") ? NICE_CANDIDATE_TRANSPORT_TCP_ACTIVE :
+                     n >= 7 && !strcmp (w[6], "tcp-pass") ? NICE_CANDIDATE_TRANSPORT_TCP_PASSIVE : NICE_CANDIDATE_TRANSPORT_UDP;
+      c->stream_id = atoi (w[2]); c->component_id = atoi (w[3]); c->priority = 2130706431;
+      g_strlcpy (c->foundation, "forced1", NICE_CANDIDATE_MAX_FOUNDATION);
+      if (nice_address_set_from_string (&c->addr, w[4])) {
+        nice_address_set_port (&c->addr, atoi (w[5]));
+        c->base_addr = c->addr;
+        r = nice_agent_set_selected_remote_candidate (g->agent, atoi (w[2]), atoi (w[3]), c);
+      }
+      nice_candidate_free (c);
+      total_dispatches += iterate_ready ();
+      printf ("ok ret %d\n", r);
+    }
     else if (!strcmp (w[0], "detach") && n == 4 && (g = find_ag (w[1])) && g->alive) {
       printf ("ok ret %d\n", nice_agent_attach_recv (g->agent, atoi (w[2]), atoi (w[3]), ctx, NULL, NULL));
     }
